@@ -19,6 +19,7 @@ type ProgOpts struct {
 	Strings    bool
 	Log        bool // append side-effect markers to the global `log`
 	Params     int  // number of `param` names (a0..)
+	Decls      bool // var/const groups, iota, destructuring, inc/dec
 	FailOps    bool // operations that raise runtime errors (1/0 via variables, bad index, call of non-callable)
 }
 
@@ -92,6 +93,9 @@ func (g *progGen) logStmt(ind string) string {
 func (g *progGen) stmt(sb *strings.Builder, sc *scope, depth int, ind string) {
 	o := g.o
 	choices := []string{"decl", "decl", "assign", "assign", "expr"}
+	if o.Decls {
+		choices = append(choices, "vardecl", "constdecl", "destruct", "incdec")
+	}
 	if o.Log {
 		choices = append(choices, "log", "log")
 	}
@@ -126,6 +130,49 @@ func (g *progGen) stmt(sb *strings.Builder, sc *scope, depth int, ind string) {
 		fmt.Fprintf(sb, "%s%s := %s\n", ind, v, g.exprK(sc, o.ExprDepth, k))
 		sc.vars = append(sc.vars, v)
 		sc.kinds[v] = k
+	case "vardecl":
+		a, b := g.fresh("v"), g.fresh("v")
+		switch g.r.Intn(3) {
+		case 0:
+			fmt.Fprintf(sb, "%svar %s\n", ind, a)
+			sc.kinds[a] = 'X'
+			sc.vars = append(sc.vars, a)
+		case 1:
+			fmt.Fprintf(sb, "%svar %s = %s\n", ind, a, g.exprK(sc, 1, 'I'))
+			sc.kinds[a] = 'I'
+			sc.vars = append(sc.vars, a)
+		default:
+			fmt.Fprintf(sb, "%svar (%s = %s; %s)\n", ind, a, g.exprK(sc, 1, 'I'), b)
+			sc.kinds[a], sc.kinds[b] = 'I', 'X'
+			sc.vars = append(sc.vars, a, b)
+		}
+	case "constdecl":
+		a, b, c3 := g.fresh("c"), g.fresh("c"), g.fresh("c")
+		switch g.r.Intn(3) {
+		case 0:
+			fmt.Fprintf(sb, "%sconst %s = %s\n", ind, a, []string{"1", "2", "\"s\"", "true", "1.5", "'x'"}[g.r.Intn(6)])
+		case 1:
+			fmt.Fprintf(sb, "%sconst (%s = iota; %s; %s)\n", ind, a, b, c3)
+		default:
+			fmt.Fprintf(sb, "%sconst (%s = iota + 1; %s; %s = 7)\n", ind, a, b, c3)
+		}
+		// constants are readable but not assignable: expose as read-only via an alias variable
+		al := g.fresh("v")
+		fmt.Fprintf(sb, "%s%s := %s\n", ind, al, a)
+		sc.kinds[al] = 'X'
+		sc.vars = append(sc.vars, al)
+	case "destruct":
+		a, b := g.fresh("v"), g.fresh("v")
+		fmt.Fprintf(sb, "%s%s, %s := %s\n", ind, a, b, g.exprK(sc, 1, 'A'))
+		sc.kinds[a], sc.kinds[b] = 'X', 'X'
+		sc.vars = append(sc.vars, a, b)
+	case "incdec":
+		v := g.varOfKind(sc, 'I')
+		if v == "" || strings.HasPrefix(v, "i") {
+			sb.WriteString(g.logStmt(ind))
+			return
+		}
+		fmt.Fprintf(sb, "%s%s%s\n", ind, v, []string{"++", "--"}[g.r.Intn(2)])
 	case "assign":
 		if len(sc.vars) == 0 {
 			sb.WriteString(g.logStmt(ind))
